@@ -1,3 +1,4 @@
+pub mod crash;
 pub mod exec;
 pub mod hist;
 pub mod model;
